@@ -100,6 +100,8 @@ var zzC02Templates = []string{
 	"POST /e HTTP/1.1\r\nHost: h\r\nTrailer: Foo, X-U\r\nTransfer-Encoding: chunked\r\n\r\n3\r\nabc\r\n0\r\nFoo: bar\r\n baz\r\nX-U: w\r\n\r\n" + zzSentinel,
 	// 7: trailer section whose first line is a field that is not allowed in a trailer
 	"POST /f HTTP/1.1\r\nHost: h\r\nTrailer: Foo\r\nTransfer-Encoding: chunked\r\n\r\n3\r\nabc\r\n0\r\nContent-Length: 3\r\nFoo: bar\r\n\r\n" + zzSentinel,
+	// 8: a complete request followed by a follow-up that the peer never finishes
+	"GET /g HTTP/1.1\r\nHost: h\r\n\r\nPOST /h HTTP/1.1\r\nHost: h\r\nContent-Length: 5\r\n\r\nab",
 }
 
 // ZZ_C02_H1: the same byte stream delivered whole and delivered cut at a split point (every
